@@ -54,6 +54,8 @@ def run(ctx):
             ctx.violation(d["sig"], "%s | %s" % (d["detail"], d["config"]), d)
     if not summary or summary["events"] == 0:
         raise Broken("mclient recorded nothing")
+    if summary.get("stale_listed_phases", 0) == 0 and summary["findings"] == 0:
+        raise Broken("mclient never held a closed connection on the client's list")
     impl = summary["backoff_ms_2_200"]
     for i, (a, b) in enumerate(zip(table, impl)):
         if a != b:
